@@ -4,6 +4,6 @@ ID="$1"; PAT="${2:-$ID}"
 for f in "$(dirname "$0")"/../mutants/${PAT}_*.diff; do
   case "$f" in *proposed_fix*) continue;; esac
   printf "%-45s " "$(basename "$f")"
-  VERIF_SKIP_MC=1 LINES_MAX=3 "$(dirname "$0")/mutant.sh" "$f" "$ID" 2>&1 | grep -E "VIOLATION|MACHINERY|held|detail" | head -2 | tr '\n' ' ' | cut -c1-260
+  VERIF_SKIP_MC=${SKIP_MC-1} LINES_MAX=3 "$(dirname "$0")/mutant.sh" "$f" "$ID" 2>&1 | grep -E "VIOLATION|MACHINERY|held|detail" | head -2 | tr '\n' ' ' | cut -c1-260
   echo
 done
